@@ -305,3 +305,31 @@ M('c19-skip-repeated-step', 'C19', 'SIB-SCHED', 'scheduler returns early when th
   (SC, '        if self._factor_update_steps_lambda is not None:\n            factor = self._factor_update_steps_lambda(', '        if step is not None and step == getattr(self, "_last", None):\n            return\n        self._last = step\n        if self._factor_update_steps_lambda is not None:\n            factor = self._factor_update_steps_lambda('))
 M('c19-elif-refusals', 'C19', 'SIB-REFUSE', 'refusal checks chained with elif',
   (SC, "        if self._inv_update_steps_lambda is not None:\n            if callable(self._preconditioner._inv_update_steps):", "        elif self._inv_update_steps_lambda is not None:\n            if callable(self._preconditioner._inv_update_steps):"))
+
+# ---------------------------------------------------------------- C16
+M('c16-match-not-search', 'C16', 'REG-PRED', 'patterns anchored with match()',
+  (LR, "    return any(regex.search(query) for regex in regexes)", "    return any(regex.match(query) for regex in regexes)"))
+M('c16-ignorecase', 'C16', 'REG-PRED', 'case-insensitive patterns',
+  (LR, "    regexes = [re.compile(p) for p in patterns]", "    regexes = [re.compile(p, re.IGNORECASE) for p in patterns]"))
+M('c16-any-trainable', 'C16', 'REG-ALL', 'any() parameter trainable suffices',
+  (LR, "    return all([p.requires_grad for p in module.parameters()])", "    return any([p.requires_grad for p in module.parameters()])"))
+M('c16-class-not-checked', 'C16', 'REG-GUARD', 'class name not tested against the patterns',
+  (LR, "            not any_match(name, skip_layers)\n            and not any_match(module.__class__.__name__, skip_layers)\n            and requires_grad(module)", "            not any_match(name, skip_layers)\n            and requires_grad(module)"))
+M('c16-exact-type', 'C16', 'REG-DISPATCH', 'exact type instead of isinstance',
+  (LR, "    if isinstance(module, LINEAR_TYPES):", "    if type(module) in LINEAR_TYPES:"))
+M('c16-name-prefilter', 'C16', 'REG-DISPATCH', 'class-name prefilter before dispatch',
+  (LR, "    if isinstance(module, LINEAR_TYPES):", "    if module.__class__.__name__.lower() not in KNOWN_MODULES:\n        return None\n    if isinstance(module, LINEAR_TYPES):"))
+M('c16-non-leaf', 'C16', 'REG-LEAF', 'all modules considered, not only leaves',
+  (LR, "        for name, module in root.named_modules()\n        if len(list(module.children())) == 0\n", "        for name, module in root.named_modules()\n"))
+M('c16-keyed-by-name', 'C16', 'REG-UNIQ', 'registry keyed by the bare class name',
+  (LR, "            kfac_layers[module] = (name, kfac_layer)", "            kfac_layers[module] = (module.__class__.__name__, kfac_layer)"))
+M('c16-gpt-lowercase', 'C16', 'SIB-REG', 'revert of F7',
+  (GP, "            and not any_match(module.__class__.__name__, skip_layers)", "            and not any_match(module_name, skip_layers)"))
+M('c16-gpt-swapped-parallelism', 'C16', 'SIB-REG', 'row-parallel layer helper tagged output',
+  (GP, "                    GPTNeoXLinearModuleHelper(\n                        module,\n                        model_parallel_group,\n                        parallelism='input',", "                    GPTNeoXLinearModuleHelper(\n                        module,\n                        model_parallel_group,\n                        parallelism='output',"))
+M('c16-hooks-twice', 'C16', 'OWN-HOOKREG', 'forward hook registered again by the subclass',
+  (PC, "        logger.log(loglevel, f'KFAC layer assignments: {assignment}')\n", "        logger.log(loglevel, f'KFAC layer assignments: {assignment}')\n        for module in kfac_layers:\n            module.register_forward_pre_hook(self._save_input)\n"))
+T('c16-twin-genexp', 'C16', 'generator instead of list in all()',
+  (LR, "    return all([p.requires_grad for p in module.parameters()])", "    return all(p.requires_grad for p in module.parameters())"))
+T('c16-twin-type-name', 'C16', 'type(module).__name__',
+  (LR, "            and not any_match(module.__class__.__name__, skip_layers)", "            and not any_match(type(module).__name__, skip_layers)"))
